@@ -17,7 +17,7 @@ EXTENDS Naturals, Sequences, FiniteSets, TLC, Json
 Recvs == {"ref", "mut", "own", "pinref", "pinmut"}
 ArgShapes == {"none", "i64", "cstruct", "ref", "mutref", "slice", "mutslice", "str",
               "opt", "optnpo", "result", "into", "callback", "iter"}
-RetShapes == {"unit", "i64", "cstruct", "slice", "mutslice", "str", "opt", "optnpo", "result", "resunit"}
+RetShapes == {"unit", "i64", "cstruct", "slice", "mutslice", "str", "opt", "optnpo", "result", "resunit", "resneg"}
 
 (* C-side type of each shape (as documented; `as implemented` where the README is silent) *)
 CRecv(r) == CASE r = "ref" -> "&CGlueC" [] r = "mut" -> "&mutCGlueC" [] r = "own" -> "CGlueC"
@@ -37,11 +37,13 @@ CRet(t, ir) ==
     [] t = "str" -> [ret |-> "CSliceRef<u8>", out |-> <<>>]
     [] t = "opt" -> [ret |-> "COption<u64>", out |-> <<>>] [] t = "optnpo" -> [ret |-> "Option<&u64>", out |-> <<>>]
     [] t = "result" -> IF ir THEN [ret |-> "i32", out |-> <<"&mutMaybeUninit<u64>">>] ELSE [ret |-> "CResult<u64,()>", out |-> <<>>]
-    [] OTHER -> IF ir THEN [ret |-> "i32", out |-> <<>>] ELSE [ret |-> "CResult<(),()>", out |-> <<>>]
+    [] t = "resunit" -> IF ir THEN [ret |-> "i32", out |-> <<>>] ELSE [ret |-> "CResult<(),()>", out |-> <<>>]
+    \* a user error type whose integer codes are negative (errno style)
+    [] OTHER -> IF ir THEN [ret |-> "i32", out |-> <<"&mutMaybeUninit<u64>">>] ELSE [ret |-> "CResult<u64,NegErr>", out |-> <<>>]
 
 (* C-representable by the compiler's rules: every type the model predicts is one of these *)
 FfiSafeTypes == {"i64", "i32", "()", "Pt", "&u64", "&mutu64", "CSliceRef<u8>", "CSliceMut<u8>", "COption<u64>",
-                 "Option<&u64>", "CResult<u64,u64>", "CResult<u64,()>", "CResult<(),()>", "u64",
+                 "Option<&u64>", "CResult<u64,u64>", "CResult<u64,()>", "CResult<(),()>", "CResult<u64,NegErr>", "u64",
                  "OpaqueCallback<u64>", "CIterator<u64>", "&mutMaybeUninit<u64>",
                  "&CGlueC", "&mutCGlueC", "CGlueC", "Pin<&CGlueC>", "Pin<&mutCGlueC>"}
 
@@ -57,7 +59,7 @@ Supported(r, a, t) ==
 
 Defs == {[recv |-> r, arg |-> a, ret |-> t, ir |-> ir] :
            r \in Recvs, a \in ArgShapes, t \in RetShapes, ir \in BOOLEAN}
-Valid(d) == Supported(d.recv, d.arg, d.ret) /\ (d.ir => d.ret \in {"result", "resunit"})
+Valid(d) == Supported(d.recv, d.arg, d.ret) /\ (d.ir => d.ret \in {"result", "resunit", "resneg"})
 
 CSig(d) == [params |-> <<CRecv(d.recv)>> \o CArg(d.arg) \o CRet(d.ret, d.ir).out, ret |-> CRet(d.ret, d.ir).ret]
 
